@@ -312,6 +312,13 @@ class Boom(Exception):
     pass
 
 
+class BoomBase(BaseException):
+    """a body left by something that is not an Exception (KeyboardInterrupt, a pytest outcome ...)"""
+
+
+_BOOM = Boom
+
+
 def run_prog(m, ash, prog, stack, trace, depth=0):
     """interpret a program on the real machine; stack = reference interpreter state [(env, cwd, opts)]"""
     for op in prog:
@@ -340,7 +347,7 @@ def run_prog(m, ash, prog, stack, trace, depth=0):
         elif k == "echo":
             trace.append(["echo", op[1] + "\n", m.exec0("printf", "%s\\n", op[1])])
         elif k == "boom":
-            raise Boom()
+            raise _BOOM()
         elif k == "sub":
             e2, c2, o2 = stack[-1]
             stack.append((dict(e2), c2, False))      # a new shell process: exported variables and cwd are inherited, `set` options are not
@@ -350,7 +357,7 @@ def run_prog(m, ash, prog, stack, trace, depth=0):
                     args = ("dash",)
                 with m.subshell(*args):
                     run_prog(m, ash, op[1], stack, trace, depth + 1)
-            except Boom:
+            except (Boom, BoomBase):
                 trace.append(["caught", depth])
             finally:
                 stack.pop()
@@ -427,6 +434,8 @@ class SubshellE2E(Suite):
         def on_alarm(sig, frm):
             raise Hang()
 
+        global _BOOM
+        _BOOM = BoomBase if case.get("base_exc") else Boom
         trace = []
         old = signal.signal(signal.SIGALRM, on_alarm)
         signal.alarm(300)
@@ -442,7 +451,7 @@ class SubshellE2E(Suite):
                             run_prog(m, case["ash"], case["prog"], [({}, cwd0, False)], trace)
                 except Hang:
                     trace.append(["hang"])
-                except Boom:
+                except (Boom, BoomBase):
                     trace.append(["boom-escaped"])
         finally:
             signal.alarm(0)
@@ -522,9 +531,13 @@ class SubshellE2E(Suite):
         for k, prog in enumerate(fixed):
             for ash in (False, True):
                 yield {"ash": ash, "chunk": 4096 if k % 2 else 1, "prog": prog + epilogue}
+        # the same with bodies left by something that is not an Exception
+        for k in (0, 3, 4):
+            for ash in (False, True):
+                yield {"ash": ash, "chunk": 4096, "prog": fixed[k] + epilogue, "base_exc": True}
         for i in range(48 if tier == "quick" else 400):
             prog = ops(0) + [["seen", names[0]]] + epilogue
-            yield {"ash": i % 2 == 1, "chunk": rng.choice([1, 4096, 4096]), "prog": prog}
+            yield {"ash": i % 2 == 1, "chunk": rng.choice([1, 4096, 4096]), "prog": prog, "base_exc": i % 4 == 3}
 
 
 class SubshellSim(C01.InitSim):
